@@ -115,7 +115,7 @@ theorem fixedScript_cost_congr {fcs fcs' tcs tcs' : List Tree} (tbl tbl' : List 
       ((tbl.getD i []).getD i (mkMatch 0)).cost = ((tbl'.getD i []).getD i (mkMatch 0)).cost) :
     (fixedScript fcs tcs tbl).cost = (fixedScript fcs' tcs' tbl').cost := by
   have hmin : ∀ a b : Nat, Nat.min a b = min a b := fun _ _ => rfl
-  simp only [fixedScript, mkCompound_cost, sumCosts_eq, List.map_append, List.map_map, ← hf.length_eq,
+  simp only [fixedScript, mkCompound_costZ, sumCosts_eq, List.map_append, List.map_map, ← hf.length_eq,
     ← ht.length_eq, hmin]
   congr 2
   · congr 1
@@ -127,12 +127,12 @@ theorem fixedScript_cost_congr {fcs fcs' tcs tcs' : List Tree} (tbl tbl' : List 
     · apply List.map_congr_left
       intro k hk
       simp only [List.mem_range] at hk
-      simp only [Function.comp_apply, mkRemove_cost]
+      simp only [Function.comp_apply, mkRemove_costZ]
       rw [(hf.getD _ (by omega)).size_eq]
   · apply List.map_congr_left
     intro k hk
     simp only [List.mem_range] at hk
-    simp only [Function.comp_apply, mkInsert_cost]
+    simp only [Function.comp_apply, mkInsert_costZ]
     rw [(ht.getD _ (by omega)).size_eq]
 
 /-- `EditDistance`: the cost depends on the operands only through sizes, pairwise equality and the cell costs -/
@@ -152,7 +152,7 @@ theorem edScript_cost_congr {fcs fcs' tcs tcs' : List Tree} (pen : Nat) (tbl tbl
   intro r hr
   apply List.map_congr_left
   intro c hc
-  simp only [List.mem_range, middle_length] at hr hc
+  simp only [List.mem_range, middle_lengthZ] at hr hc
   have la := trim_le_left fcs tcs
   have lb := trim_le_right fcs tcs
   exact H _ _ (by omega) (by omega)
